@@ -38,6 +38,16 @@ func (rn *runner) do(cfg config, seq []op, tie *lib.Tie, class string) {
 		// a record configured under a key it does not carry: outside the property's hypothesis, tie only
 		obs = runSeqMon(nil, cfg, seq)
 		tie.Count("foreign-key-configuration")
+	} else if cfg.Icpt != "" {
+		// the mode collection behind an id interceptor: own monitor (icpt.go), streams feed the tie
+		obs = runSeqMon(nil, cfg, seq)
+		key := cfg.line() + "\n"
+		for _, o := range seq {
+			key += o.line() + "\n"
+		}
+		rn.mon.Eval(key, len(seq) > 1, map[string]any{"init": cfg, "ops": seq, "last": obs[len(obs)-1].Out})
+		rn.mon.Count("class:" + class)
+		monitorIcpt(rn.mon, cfg, seq, obs)
 	} else {
 		obs = runSeqMon(rn.mon, cfg, seq)
 		key := cfg.line() + "\n"
@@ -797,16 +807,20 @@ func main() {
 	tie := res.Tie("electric-random", "K1",
 		"random operation sequences (length 1-40) from one PRNG, 40% of them from a random InitOk configuration (0-3 initial modes, placeholder active mode with id \"\"/fresh/existing/future), over 8 ids incl. ids the scripted RNG will generate plus \"\" and the placeholder's id as arguments, random masks (nil, empty, subsets of id/title/normal/start_time/description/voltage/segments, unknown path), Model-level write options on UpdateMode / DeleteMode (WithCreateIfAbsent, WithExpectAbsent, WithExpectedValue with blank / plausible / random values, WithExpectedCheck with four named checks on both; WithResetMask over random paths incl. an unknown one, WithExpectedCheck, InterceptBefore / InterceptAfter with the four tame named callbacks; in 1 of 8 sequences the LAST operation is an UpdateMode with exactly one option outside the theorems' hypothesis WOpts.Tame - reset mask naming id, a callback renaming the record or raising normal - plus ten fixed probes of that kind: the model follows the code there too, the record being stored under the call's key), rejected configurations (construction panics), both API levels, documented contract panics, id-generation retries and exhaustion; every step's result, whole observable state and stream events compared with the Lean model; distinct = distinct operation prefix")
 	rn.mon = res.Monitor("electric-invariants",
-		"after EVERY step of every sequence on the real model, with plain Go bookkeeping as oracle: I1 at most one normal mode; I2 a delete of the active id fails and keeps the mode, and a delete of the id under which the active mode was last selected never succeeds; I3 once changed the active id is in modes; clear selects the normal mode / NotFound; a successful switch to a different id stamps start_time = clock now; delete of an absent id = NotFound, or OK with allow-missing; a failed operation changes nothing; every listed mode is found by a lookup of the id it carries (C19/key/…); no panic other than the two documented contract panics; an UpdateMode whose options are outside WOpts.Tame is reported under a qualified operation name (update[reset-id], update[intercept-id], update[intercept-normal]); PullModes / PullActiveMode followed from the model's creation: every expected event arrives, the subscriber's folded view has at most one normal mode after every event and equals Modes() at every operation boundary, an active-mode event is the active mode and names a stored mode; a second subscriber joins both streams half way through every sequence without updates_only: it is seeded with one ADD per stored mode in listing order and with the active mode, then is sent the same PullModes events and every changed active mode (C19/pull/late-…); after a successful UpdateMode outside WOpts.Tame, and for configurations with a record under a foreign key, the run feeds the tie only; non-trivial = more than one step")
+		"after EVERY step of every sequence on the real model, with plain Go bookkeeping as oracle: I1 at most one normal mode; I2 a delete of the active id fails and keeps the mode, and a delete of the id under which the active mode was last selected never succeeds; I3 once changed the active id is in modes; clear selects the normal mode / NotFound; a successful switch to a different id stamps start_time = clock now; delete of an absent id = NotFound, or OK with allow-missing; a failed operation changes nothing; every listed mode is found by a lookup of the id it carries (C19/key/…); no panic other than the two documented contract panics; an UpdateMode whose options are outside WOpts.Tame is reported under a qualified operation name (update[reset-id], update[intercept-id], update[intercept-normal]); PullModes / PullActiveMode followed from the model's creation: every expected event arrives, the subscriber's folded view has at most one normal mode after every event and equals Modes() at every operation boundary, an active-mode event is the active mode and names a stored mode; a second subscriber joins both streams half way through every sequence without updates_only: it is seeded with one ADD per stored mode in listing order and with the active mode, then is sent the same PullModes events and every changed active mode (C19/pull/late-…); after a successful UpdateMode outside WOpts.Tame, and for configurations with a record under a foreign key, the run feeds the tie only; runs behind an id interceptor (WithIDInterceptor(strings.ToLower) on the mode collection) are judged by the same state clauses with ids identified up to spelling (the active mode is the stored mode its id names in any case), a delete that names the active mode by another spelling than the one it carries is reported as delete[other-spelling] / s.delete[other-spelling], streams feed the tie there; non-trivial = more than one step")
 	stress := res.Monitor("electric-stress",
 		"2-4 goroutines issue 5-24 random operations each on one shared model (Model API and servers mixed); I1 and I3 evaluated at quiescence, no panic; one evaluation = one round")
 	k4 := res.Tie("electric-forced-overlap", "K4",
 		"forced overlaps: a ChangeActiveMode is parked inside Model.mu through the injected clock, 2-4 calls (same RPC on the same id with and without allow-missing, racing normal flags via create/update/upsert/add, deletes of the mode being switched to, mixed) are issued concurrently and observed blocked on the model's locks (goroutine dump), then all are released; stamp rounds (1 in 4) are the dual: a write to the mode list (create/add/update/delete) is parked inside the lock, 1-3 switches of the active mode (ChangeActiveMode, UpdateActiveMode, ChangeToNormalMode, ClearActiveMode, now and then with a delete/update of a target) queue behind it, the model clock is advanced while they wait and the old active mode is observed at the new instant, then the parked call is released - the serial order is performed at the advanced instant; parked-write rounds (about 1 in 4): a DeleteMode is parked in its own WithExpectedCheck callback, i.e. after deleteMode's active-mode guard and before the removal, while 1-3 calls switch to / set active / clear to / rewrite / delete the same mode, or an UpdateMode / upsert that makes a mode normal is parked there, i.e. after updateMode's second-normal-mode guard and before the write, while 1-3 calls try to make another mode normal, delete the target or clear to the normal mode; the observed per-call outcomes + final state are matched to a serial order and that order is executed by the Lean model (C19_mutex_serialises: every execution equals some serial run); distinct = (class, prefix, gate, queued)")
 	serial := res.Monitor("electric-serialisable",
 		"per forced-overlap round on the real code: every call's outcome and the final state must equal those of SOME serial order of the calls (oracle: the same calls run sequentially on a fresh real model, all permutations tried); a delete with allow-missing must never report NotFound; in stamp rounds the start time returned by a switch that waited for the lock is the clock's time at the switch (the advanced instant; or the stored start time when the mode was already active), never the instant at which the call started to queue; no panic, no stuck call; one evaluation = one round, non-trivial = the queued calls were observed blocked behind the parked one")
+	ic := res.Tie("electric-id-interceptor", "K2",
+		"the mode collection behind an id interceptor, NewModel(WithModeOption(resource.WithIDInterceptor(strings.ToLower))): ALL operation sequences of length <= 3 over a 21-operation alphabet with two spellings of one id (add / create / update / upsert / delete with and without allow-missing / change / clear / set-active / find over the ids a, b and B, both API levels, generated ids with upper-case letters) from a new model and from one configured with an initial record spelled in upper case, plus random sequences of length 4-12 over the same alphabet and the construction itself (accepted, and two initial records the interceptor maps to one key: panic); after every step result, whole observable state and stream events are compared with the Lean model ikstep (Icpt.lean: the interceptor applied where collection.go applies it, model.go's guards comparing spellings); distinct = distinct (initial state, operation prefix)")
+	ic.Exhaustive = true
 	if f.Driver != "" {
 		d, err := lib.StartDriver(f.Driver)
 		if err != nil {
+			ic.Fail(err)
 			ex.Fail(err)
 			tie.Fail(err)
 			k4.Fail(err)
@@ -816,6 +830,7 @@ func main() {
 		}
 	} else {
 		ex.Fail(fmt.Errorf("no driver given"))
+		ic.Fail(fmt.Errorf("no driver given"))
 		tie.Fail(fmt.Errorf("no driver given"))
 		k4.Fail(fmt.Errorf("no driver given"))
 	}
@@ -848,6 +863,8 @@ func main() {
 			rn.exhaustive(cfg, ex, 3)
 		}
 	}
+	rn.flush()
+	rn.icptFamily(ic, r, f.N(3, 3), f.N(300, 6000))
 	rn.flush()
 	rn.do(config{}, exhaustedSeq(), tie, "id-exhaustion")
 	for i := 0; i < f.N(1500, 30000); i++ {
@@ -927,11 +944,20 @@ func replay(f lib.Flags) int {
 			join = *in.LateJoin
 			fmt.Println("a second subscriber joins PullModes / PullActiveMode (not updates-only) after", join, "operation(s)")
 		}
-		obs := runSeqMonJoin(m, in.Init, in.Ops, join)
-		for i, st := range obs {
-			fmt.Printf("step %d: %s -> %s %s\n", i, st.Op.line(), st.Out, st.State)
+		if in.Init.Icpt != "" {
+			fmt.Println("the mode collection has an id interceptor (" + in.Init.Icpt + "): ids are compared up to spelling")
+			obs := runSeqMon(nil, in.Init, in.Ops)
+			for i, st := range obs {
+				fmt.Printf("step %d: %s -> %s %s\n", i, st.Op.line(), st.Out, st.State)
+			}
+			monitorIcpt(m, in.Init, in.Ops, obs)
+		} else {
+			obs := runSeqMonJoin(m, in.Init, in.Ops, join)
+			for i, st := range obs {
+				fmt.Printf("step %d: %s -> %s %s\n", i, st.Op.line(), st.Out, st.State)
+			}
+			monitorSeq(m, in.Init, in.Ops, obs)
 		}
-		monitorSeq(m, in.Init, in.Ops, obs)
 	} else {
 		// a concurrent witness: re-run the same programs a number of times
 		fmt.Println("replay of a concurrent witness: re-running the goroutine programs 200 times")
